@@ -441,7 +441,11 @@ func H_close_vs_op() {
 	w := verifNewInotifyN(0, 1, 0)
 	verifSetupTable(w, W)
 	verifK.nIno = W + 1
-	verifK.blockAfter = true
+	if verifBool("record-pending") {
+		verifScriptReadX(1, 16, true) // the reader has a record to handle when the calls start
+	} else {
+		verifK.blockAfter = true
+	}
 	go w.readEvents()
 	p := verifCtlPaths[verifChoose("path", len(verifCtlPaths))]
 	op := verifChoose("op", 3)
@@ -466,6 +470,8 @@ func H_close_vs_op() {
 	verifAssert(w.Close() == nil, "a further Close returns")
 	verifAssert(w.Remove(p) == nil, "Remove after Close returns nil")
 	verifAssert(w.WatchList() == nil, "WatchList after Close returns nil")
+	for range w.Events {
+	}
 	verifQuiesce()
 	verifAssert(verifGoroutines() == 0, "no goroutine is left behind (blocked) after Close")
 	verifReach("close-vs-op")
@@ -519,4 +525,30 @@ func H_lifecycle_readerr() {
 	verifAssert(verifGoroutines() == 0, "the reader is gone after Close")
 	verifCheckClosed(w)
 	verifReach("lifecycle-readerr")
+}
+
+// C05: whatever rename-cookie state earlier history left behind (for example
+// ten or more unmatched move-outs), handling a further move half terminates and
+// the control calls return.
+func H_ctl_ring() {
+	verifKReset()
+	w := verifNewInotifyN(0, 1, 0)
+	for i := range w.cookies {
+		w.cookies[i] = koekje{cookie: verifU32("ringcookie"), path: "/old"}
+	}
+	w.cookieIndex = verifU8("ringindex")
+	verifAssume(w.cookieIndex <= 9)
+	verifSetupTable(w, 2)
+	c := verifU32("cookie")
+	verifAssume(c != 0)
+	half := [...]uint32{unix.IN_MOVED_FROM, unix.IN_MOVED_TO}[verifChoose("half", 2)]
+	done := make(chan bool, 1)
+	go func() {
+		_, ok := verifDeliver(w, verifTable[0].wd, half, c)
+		done <- ok
+	}()
+	verifAssert(<-done, "the notification is handled")
+	_ = w.WatchList()
+	verifAssert(w.cookieIndex <= 9, "ring index in range")
+	verifReach("ctl-ring")
 }
